@@ -1,5 +1,7 @@
 import OdcGeo.Drv.C14
 import OdcGeo.Model.C14Args
+import OdcGeo.Model.C14Ext
+import OdcGeo.Model.C14Thr
 namespace OdcGeo.C14.Drv
 open OdcGeo OdcGeo.IO OdcGeo.C14
 
@@ -97,6 +99,62 @@ def fmtSOut : SOut → String
   | .ok none => "-"
   | .ok (some (k, _)) => fmtIdx k
   | .error e => e.toStr
+
+/-- `E` exact arithmetic without overflow, `F` binary64 with overflow to `±inf` at 2^1024 -/
+def parseEnv? (s : String) : Option FEnv :=
+  if s = "E" then some FEnv.exact else if s = "F" then some ⟨fl64, some (pow2 1024)⟩ else none
+
+def fmtXF : XF → String
+  | .fin q => fmtRat q
+  | .nan => "nan"
+  | .pinf => "inf"
+  | .ninf => "-inf"
+
+def fmtBinX (b : Bin1DX) : String := s!"{fmtXF b.sz} {fmtXF b.origin} {b.dir}"
+
+def runExt (args : List String) : Option String :=
+  match args with
+  | ["itemx", m, sz, o, d, k] => do
+    let E ← parseEnv? m; let sz ← parseXF? sz; let o ← parseXF? o; let d ← parseInt? d; let k ← parseNum? k
+    pure (fmtResX (fun (b : Bin1DX) => s!"{fmtResX fmtXF (b.lo E k)} {fmtResX fmtXF (b.hi E k)}") (Bin1DX.new sz o d))
+  | ["binx", m, sz, o, d, x] => do
+    let E ← parseEnv? m; let sz ← parseXF? sz; let o ← parseXF? o; let d ← parseInt? d; let x ← parseXF? x
+    pure (fmtResX (fun (b : Bin1DX) => fmtResX fmtInt (b.bin E x)) (Bin1DX.new sz o d))
+  | ["fsbx", m, idx, x0, x1, d] => do
+    let E ← parseEnv? m; let idx ← parseInt? idx; let x0 ← parseXF? x0; let x1 ← parseXF? x1; let d ← parseInt? d
+    pure (fmtResX fmtBinX (Bin1DX.fromSampleBin E idx x0 x1 d))
+  -- grid on the whole float domain: tile size, a point lookup, the pixel-(0,0) corner of one tile (index of any numeric type)
+  | ["gridx", m, ny, nx, rx, ry, ox, oy, fx, fy, px, py, kx, ky] => do
+    let E ← parseEnv? m
+    let ny ← parseInt? ny; let nx ← parseInt? nx
+    let rx ← parseXF? rx; let ry ← parseXF? ry; let ox ← parseXF? ox; let oy ← parseXF? oy
+    let fx ← parseBool? fx; let fy ← parseBool? fy
+    let px ← parseXF? px; let py ← parseXF? py; let kx ← parseNum? kx; let ky ← parseNum? ky
+    pure (fmtResX (fun (g : GridSpecX) =>
+      s!"{fmtXF g.xbin.sz} {fmtXF g.ybin.sz} {fmtResX fmtIdx (g.pt2idx E px py)} {fmtResX (fun (t : XF × XF) => s!"{fmtXF t.1};{fmtXF t.2}") (g.tileTxy E kx ky)}")
+      (GridSpecX.new E ny nx rx ry ox oy fx fy))
+  -- threads over one shared cache: `n` queries (`B same l b r t` | `P [pts]`), then the schedule (thread numbers); after the
+  -- schedule every thread is run to completion; output: what each thread yielded, then the cache keys
+  | "thr" :: m :: ny :: nx :: rx :: ry :: ox :: oy :: fx :: fy :: n :: rest => do
+    let fl ← parseMode? m
+    let g ← parseGrid? fl ny nx rx ry ox oy fx fy
+    let n ← parseNat? n
+    match g with
+    | .error e => pure e.toStr
+    | .ok g => do
+      let (gens, rest) ← parseGens fl n rest
+      let sched ← rest.mapM parseNat?
+      let ts := gens.map (fun s => match s.start with
+        | some (q, true) => (⟨g.tiles fl tol8 q, false, s.dj, []⟩ : Thr)
+        | _ => ⟨[], false, s.dj, []⟩)
+      let finish := (List.range ts.length).flatMap (fun i => List.replicate (2 * ((ts[i]?.map (·.todo.length)).getD 0) + 2) i)
+      let r := g.thrRun fl (sched ++ finish) ts []
+      pure ("|".intercalate (r.1.map (fun t => fmtList fmtIdx (t.out.map (·.1)))) ++ " cache=" ++
+        fmtList fmtIdx ((r.2.map (·.1)).eraseDups.mergeSort keyLe))
+  | ["dims", k] =>
+    let kind := if k = "G" then some CrsKind.geographic else if k = "P" then some .projected else if k = "O" then some .otherKind else none
+    kind.map (fun kd => fmtRes (fun (p : String × String) => s!"{p.1} {p.2}") (dimensions kd))
+  | _ => none
 
 def runArgs (args : List String) : Option String :=
   match args with
@@ -212,6 +270,9 @@ def runArgs (args : List String) : Option String :=
 def runAll (args : List String) : Option String :=
   match run args with
   | some s => some s
-  | none => runArgs args
+  | none =>
+    match runArgs args with
+    | some s => some s
+    | none => runExt args
 
 end OdcGeo.C14.Drv
